@@ -1,21 +1,23 @@
 #!/bin/bash
-# usage: seedtest.sh <patch.diff> <property> [tier] [extra nricheck args]
-# Applies a seeded change to /repo, runs the property's check, and reverts. Prints the verdict.
+# usage: seedtest.sh <abs patch.diff> <property> [tier] [extra nricheck args]
+# Applies a seeded change to a scratch worktree of /repo's HEAD (never to /repo itself), runs the
+# property's check against that worktree (VERIF_REPO), and removes the worktree. Prints the verdict.
 P=$1; ID=$2; TIER=${3:-quick}; shift 3 2>/dev/null
-cd /repo || exit 2
-if [ -n "$(git status --short | grep -v '^??')" ]; then echo "repo not clean"; exit 2; fi
+WT=/tmp/st/$(basename $(dirname "$P"))-$(basename "$P" .diff)-$$
+mkdir -p /tmp/st; git -C /repo worktree prune
+git -C /repo worktree add --detach "$WT" HEAD >/dev/null 2>&1 || { echo "cannot create worktree"; exit 2; }
+trap 'git -C /repo worktree remove --force "$WT" >/dev/null 2>&1' EXIT
+cd "$WT"
 if ! git apply --check "$P" 2>/dev/null; then
-  if ! git apply -3 "$P" >/dev/null 2>&1; then echo "PATCH DOES NOT APPLY: $P"; git checkout -- . ; exit 3; fi
+  if ! git apply -3 "$P" >/dev/null 2>&1; then echo "PATCH DOES NOT APPLY: $P"; exit 3; fi
   git reset -q
 else
   git apply "$P"
 fi
-/verif/bin/nricheck $ID --tier $TIER "$@" > /var/tmp/seedtest.$$.log 2>&1
+VERIF_REPO="$WT" /verif/bin/nricheck $ID --tier $TIER "$@" > /var/tmp/seedtest.$$.log 2>&1
 rc=$?
-git checkout -- .
-git status --short | grep -v '^??'
 echo "== $P on $ID: exit=$rc"
 grep -m3 '^finding' /var/tmp/seedtest.$$.log | cut -c1-300
-tail -2 /var/tmp/seedtest.$$.log | cut -c1-300
+tail -2 /var/tmp/seedtest.$$.log | grep -v '^VIOLATION' | cut -c1-300
 rm -f /var/tmp/seedtest.$$.log
 exit $rc
